@@ -481,6 +481,14 @@ def _set_traits(context, rp, traits):
     if to_delete:
         _delete_traits_from_provider(context, rp.id, to_delete)
     if to_add:
+        # The traits were looked up before this transaction started: make
+        # sure none of them has been deleted in the meantime, otherwise the
+        # association would refer to a trait that no longer exists.
+        trait_tbl = models.Trait.__table__
+        sel = sa.select(sa.func.count(trait_tbl.c.id)).where(
+            trait_tbl.c.id.in_(to_add))
+        if context.session.execute(sel).scalar() != len(to_add):
+            raise exception.ConcurrentUpdateDetected()
         _add_traits_to_provider(context, rp.id, to_add)
     rp.increment_generation()
 
